@@ -73,12 +73,12 @@ def main():
             rc1, out1 = sh(demo_cmd, cwd=wt, timeout=1800)
             res["demo_with_patch"] = "fail" if rc1 != 0 else "pass"
             res["demo_with_patch_tail"] = out1[-1200:]
-            sh("git stash -q", cwd=wt)  # only tracked changes (the patch); demo is untracked
+            sh("git apply -R %s" % patch, cwd=wt)  # (git stash is shared between worktrees: not used)
             rc2, out2 = sh(demo_cmd, cwd=wt, timeout=1800)
             res["demo_without_patch"] = "fail" if rc2 != 0 else "pass"
             if rc2 != 0:
                 res["demo_without_patch_tail"] = out2[-1200:]
-            sh("git stash pop -q", cwd=wt)
+            sh("git apply %s" % patch, cwd=wt)
             # remove demo before stock tests / checks
             for f in demo_files:
                 dst = os.path.join(wt, demo_rel if len(demo_files) == 1 else os.path.join(os.path.dirname(demo_rel), f))
